@@ -10,7 +10,7 @@ for d in sorted(glob.glob("/verif/seeded/S*")):
 for f in sorted(glob.glob("/verif/mutants/*.diff")):
     exp = open(f).readline().replace("# expect:", "").strip()
     rows.append("| `mutants/%s` | %s | hand-written calibration mutant | %s | - |" % (os.path.basename(f), exp.split()[0], exp))
-rows.append("| `mutants/reverts/revert_<commit>.diff` (12) | as 5.1 | the reverse of each `fix:` commit | each is caught by the check that found the defect (re-verified) | - |")
+rows.append("| `mutants/reverts/revert_<commit>.diff` (%d) | as 5.1 | the reverse of each `fix:` commit | each is caught by the check that found the defect (re-verified) | - |" % len(glob.glob("/verif/mutants/reverts/*.diff")))
 tab = "\n".join(rows)
 p = "/verif/DESIGN.md"
 s = open(p).read()
